@@ -414,6 +414,19 @@ class NP2Converter:
         shank_info = {}
         self.already_exists = False
 
+        if not overwrite and any(
+            self.ap_file.parent.parent.joinpath(label + chr(97 + int(sh)) + self.extra).exists()
+            for sh in n_shanks
+        ):
+            # nothing is created when some output already exists (e.g. a previous run was interrupted
+            # after creating part of the shank folders): the caller reports that nothing was done
+            self.already_exists = True
+            _logger.warning(
+                "One or more of the sub shank folders already exists, "
+                "to force reprocessing set overwrite to True"
+            )
+            return shank_info
+
         for sh in n_shanks:
             _shank_info = {}
             # channels for individual shank + sync channel
